@@ -122,7 +122,7 @@ theorem fetchMore_alive (B : Nat) (script : List (El α)) (s : State α) (ha : A
   simp only at hscript
   obtain ⟨hs1, hs2⟩ := hscript
   have hp := readSpec_props B s.under.rem
-  simp only [fetchMore, readBuf_eq, he]
+  simp only [fetchMore, readBuf_eq, he, Option.isSome_none, Bool.false_eq_true, if_false]
   refine ⟨⟨hst, ?_⟩, by first | rfl | trivial, by first | rfl | trivial, by first | rfl | trivial, ?_, ?_⟩
   · cases hr : (readSpec B s.under.rem).2.1 with
     | none =>
